@@ -87,7 +87,7 @@ def gen_fn(rng):
         return gen_default(rng)
     for _ in range(20):
         # no build detours here: limits sit exactly on cell values, so the float summation order of the children must be the plain one
-        base = gen.gen_system(rng, phases=0.4, p_rt=0.6, max_nodes=14, p_neg_src_rs=0.0, n_sources=rng.choice([1, 1, 2, 3]), p_detour=0.0, p_bridge=0.0)
+        base = gen.gen_system(rng, phases=0.4, p_rt=0.6, max_nodes=14, p_neg_src_rs=0.0, n_sources=rng.choice([1, 1, 2, 3]), p_detour=0.0, p_bridge=0.0, p_moved=0.0)
         sys_, df, err = solved.solve_case(base, {"vtol": 1e-10, "itol": 1e-10})
         if err is None:
             return plant(rng, base, sysdesc.observe(df))
